@@ -6,9 +6,10 @@ import sys
 import unicodedata
 
 from .core import rule
+from . import rx
 from .model import AnalysisError, dotted, norm, walk_own
-from .paths import Parents, flat_guards, strip_not, cmp_atom, np_atom, decision_table, enumerate_paths
-from .pat import has, find, first, name_of, _parse
+from .paths import Parents, flat_guards, strip_not, cmp_atom, np_atom, decision_table, enumerate_paths, isinstance_atom
+from .pat import has, find, first, name_of, _parse, match
 from .rules_t import element_family, own_init, str_elts, module_const
 
 
@@ -158,8 +159,19 @@ def n1(ctx, res):
     pan = ctx.func("_parse_attribute_name")
     cm = pan.nested.get("_char_map")
     if cm is None:
-        raise AnalysisError("_parse_attribute_name._char_map vanished")
-    ch = cm.params[1].name if len(cm.params) > 1 else cm.params[0].name
+        # the per-character function is whatever is mapped over enumerate(name): map(expand(F), enumerate(name)),
+        # F possibly partial(G, name) or a module-level function
+        for node, b in list(find("map(MV_f, enumerate(MV_n))", pan)):
+            fexpr = b["MV_f"]
+            while isinstance(fexpr, ast.Call) and dotted(fexpr.func) in ("expand", "partial", "functools.partial") and fexpr.args:
+                fexpr = fexpr.args[0]
+            if isinstance(fexpr, ast.Name):
+                r = ctx.prog.resolve_in(pan, fexpr.id)
+                if r and r[0] == "func":
+                    cm = r[1]
+    if cm is None:
+        raise AnalysisError("_parse_attribute_name: the per-character mapping function (mapped over enumerate(name)) was not found")
+    ch = cm.params[-1].name
     keep_test = None
     for st in cm.body:
         if isinstance(st, ast.If) and len(st.body) == 1 and isinstance(st.body[0], ast.Return) and norm(st.body[0].value) == ch:
@@ -317,6 +329,21 @@ def n2(ctx, res):
     res.check(handled, pp, "{_parse_attribute_name(key): ... for key in properties}",
               reason="the name map is not injective (' ', '-' and '_' all become '_'; symbols become words), and the mapped "
                      "names are used as dict keys with no collision handling: 'a b', 'a-b' and 'a_b' collapse onto one attribute")
+    # the same map decides whether a name listed in `required` has a declaration
+    from .norm import view, builders
+    po = ctx.func("_parse_object")
+    verdict = None
+    for b in builders(view(po, ctx.prog, keep=("properties",)).body):
+        if b.kind == "dict" and has("MV_s.get('required', MV__)", b.iter) and isinstance(b.target, ast.Name):
+            kn = b.target.id
+            gt = b.guard_texts()
+            by_mapped = any(g.replace("not ", "").startswith(f"_parse_attribute_name({kn})") and " in " in g for g in gt)
+            by_source = any(".source" in g for g in gt)
+            verdict = False if (by_mapped and not by_source) else (True if by_source else None)
+    res.judge(verdict, po, "required names without a declaration: _parse_attribute_name(key) not in properties",
+              reason="whether a required JSON name is already declared is decided by its MAPPED attribute name: 'a_b' listed in "
+                     "required counts as declared because the property 'a-b' maps onto the same attribute, and the requirement "
+                     "is silently lost")
 
 
 # ---------------------------------------------------------------------- N3
@@ -387,8 +414,62 @@ def n3(ctx, res):
         okd = False
     res.judge(okd, dd, "repeated titles get a numeric suffix", reason="distinct classes with one title get distinct names")
     tf = ctx.func("_title_format")
-    res.check(has("re.split('[^a-zA-Z0-9]', MV_n)", tf), tf, "re.split('[^a-zA-Z0-9]', name)",
+    delim, seg = _title_patterns(ctx, tf)
+    verdict = None
+    detail = {"delimiter": delim}
+    if delim is not None:
+        pred_d = rx.single_class(delim)
+        if pred_d is not None:
+            import string as _string
+            alnum = set(_string.ascii_letters + _string.digits)
+            wrong = [cp for cp in range(sys.maxunicode + 1) if pred_d(chr(cp)) != (chr(cp) not in alnum)]
+            verdict = not wrong
+            detail["code_points_classified_differently"] = [f"U+{cp:04X}" for cp in wrong[:6]]
+    res.judge(verdict, tf, "re.split('[^a-zA-Z0-9]', name)", detail=detail,
               reason="formatted titles contain ASCII letters and digits only (so a '_<n>' suffix cannot collide with a formatted title)")
+
+
+def _title_patterns(ctx, tf):
+    """(delimiter pattern, segment pattern) of _title_format: the constant given to re.split / re.findall,
+    directly or through a module-level compiled pattern."""
+    from .rules_t import deref_const
+    delim = seg = None
+    for n in walk_own(tf.body):
+        if not (isinstance(n, ast.Call) and isinstance(n.func, ast.Attribute) and n.func.attr in ("split", "findall")):
+            continue
+        if dotted(n.func.value) == "re" and n.args:
+            pat = deref_const(ctx, tf, n.args[0])
+        else:
+            pat = deref_const(ctx, tf, n.func.value)
+        if isinstance(pat, ast.Constant) and isinstance(pat.value, str):
+            if n.func.attr == "split":
+                delim = pat.value
+            else:
+                seg = pat.value
+    return delim, seg
+
+
+@rule("N4", "the numeric suffix that disambiguates equal titles disappears when the emitted title is parsed again")
+def n4(ctx, res):
+    tf = ctx.func("_title_format")
+    delim, seg = _title_patterns(ctx, tf)
+    dd = ctx.func("_ParseState.dedupe")
+    suffix_underscore = has("MV_n + f'_{MV_c}'", dd) or has("f'{MV_n}_{MV_c}'", dd) or has("MV_n + '_' + str(MV_c)", dd)
+    res.judge(True if suffix_underscore else None, dd, "object_type.__name__ = name + f'_{count}'",
+              reason="the disambiguating suffix is an underscore followed by digits")
+    verdict = None
+    detail = {"delimiter": delim, "segment": seg}
+    if delim is not None and seg is not None:
+        pd_, ps_ = rx.single_class(delim), rx.first_class(seg)
+        if pd_ is not None and ps_ is not None:
+            splits_underscore = pd_("_")
+            digit_starts = [d for d in "0123456789" if ps_(d)]
+            detail.update({"underscore_is_a_delimiter": splits_underscore, "digits_that_can_start_a_segment": digit_starts})
+            verdict = splits_underscore and not digit_starts
+    res.judge(verdict, tf, "re.findall('[A-Z][^A-Z]*', word[0].upper() + word[1:])", detail=detail,
+              reason="serialize_json emits the suffixed class name (Address_1) as the title; parsing it again must format it "
+                     "back to the unsuffixed name (the word '1' yields no segment) so that dedupe assigns the same suffix "
+                     "again - otherwise every round trip renames the class (Address_1 -> Address1 -> ...)")
 
 
 # ---------------------------------------------------------------------- A1
@@ -441,22 +522,100 @@ def a1(ctx, res):
 # ---------------------------------------------------------------------- A2
 @rule("A2", "union and list annotations draw from every contributing element")
 def a2(ctx, res):
+    from .norm import view, builders
     ca = ctx.cls("CompositionElement").props["annotation"]["get"]
-    ok = False
-    for node, b in find("MV_a = remove_duplicates((MV_e.annotation for MV_e in self.elements))", ca):
-        an = name_of(b["MV_a"])
-        ok = has(f"if len({an}) == 1:\n    return {an}[0]", ca) and has(f"if 'Any' in {an}:\n    return 'Any'", ca)
-    res.check(ok, ca, "annotations of ALL self.elements; one -> itself; any Any -> Any; else Union[...]",
+    vca = view(ca, ctx.prog).body
+    ANN = ["remove_duplicates((MV_e.annotation for MV_e in self.elements))",
+           "remove_duplicates([MV_e.annotation for MV_e in self.elements])"]
+    # a surviving local holding the collection
+    for b in builders(vca):
+        if b.name and norm(b.iter) == "self.elements" and norm(b.elt) == f"{norm(b.target)}.annotation" and not b.guards:
+            ANN.append(b.name)
+
+    def is_ann(e):
+        return any(match(_parse(ptn), e) is not None for ptn in ANN)
+
+    def rec_c(e):
+        t, pol = strip_not(e)
+        c = cmp_atom(e)
+        if c and c[1] in ("==", "!=") and c[2] == "1" and isinstance(c[3], ast.Call) and dotted(c[3].func) == "len" \
+                and c[3].args and is_ann(c[3].args[0]):
+            return ("ONE", c[1] == "==")
+        if c and c[1] in ("in", "not in") and c[0] == "'Any'" and is_ann(c[4]):
+            return ("ANY", c[1] == "in")
+        return None
+
+    def lab_c(p):
+        if p.exit != "return" or p.exit_node.value is None:
+            return p.exit
+        e = p.exit_node.value
+        if isinstance(e, ast.Subscript) and is_ann(e.value) and norm(e.slice) == "0":
+            return "the single annotation"
+        if isinstance(e, ast.Constant) and e.value == "Any":
+            return "Any"
+        t = norm(e)
+        if "Union[" in t and any(is_ann(x) for x in ast.walk(e) if isinstance(x, ast.expr)) and "join" in t:
+            return "Union of all"
+        return "other:" + t[:60]
+    table, opaque = decision_table(vca, ["ONE", "ANY"], rec_c, lab_c)
+    want = {(True, True): {"the single annotation"}, (True, False): {"the single annotation"},
+            (False, True): {"Any"}, (False, False): {"Union of all"}}
+    res.judge(True if table == want else (None if opaque or any("other:" in x for v_ in table.values() for x in v_) else False), ca,
+              "annotations of ALL self.elements; one -> itself; any Any -> Any; else Union[...]",
+              detail={"table": {str(k): sorted(v_) for k, v_ in table.items()}, "opaque": sorted(opaque)},
               reason="the union covers every branch that can build the result")
     ia = ctx.cls("Array").props["item_annotations"]["get"]
-    ok = has("if isinstance(self.items, Element):\n    return [self.items.annotation]", ia)
-    ok2 = False
-    for node, b in find("MV_a = [MV_i.annotation for MV_i in self.items]", ia):
-        an = name_of(b["MV_a"])
-        ok2 = has("if self.additionalItems is True:\n    return ['Any']", ia) and \
-            has(f"if isinstance(self.additionalItems, Element):\n    {an}.append(self.additionalItems.annotation)", ia) and \
-            has(f"if 'Any' in {an}:\n    return ['Any']", ia) and has(f"return remove_duplicates({an})", ia)
-    res.check(ok and ok2, ia, "items -> [its annotation]; tuple items -> every member + additionalItems (True -> Any)",
+    via = view(ia, ctx.prog).body
+    an = None
+    for b in builders(via):
+        if b.kind == "list" and norm(b.iter) == "self.items" and norm(b.elt) == f"{norm(b.target)}.annotation" and not b.guards and b.name:
+            an = b.name
+    if an is None:
+        res.unrecognised(ia, "annotations = [item.annotation for item in self.items]", reason="every tuple member contributes")
+        return
+
+    def rec_i(e):
+        ia_ = isinstance_atom(e)
+        if ia_ and ia_[1] == ["Element"] and ia_[0] in ("self.items", "self.additionalItems"):
+            return ("ISEL" if ia_[0] == "self.items" else "ADDEL", ia_[2])
+        c = cmp_atom(e)
+        if c and c[0] == "self.additionalItems" and c[2] == "True" and c[1] in ("is", "==", "is not", "!="):
+            return ("ADDTRUE", c[1] in ("is", "=="))
+        if c and c[1] in ("in", "not in") and c[0] == "'Any'" and c[2] == an:
+            return ("ANY", c[1] == "in")
+        return None
+
+    def lab_i(p):
+        if p.exit != "return" or p.exit_node.value is None:
+            return p.exit
+        t = norm(p.exit_node.value)
+        added = any(isinstance(s_, ast.Expr) and norm(s_.value) == f"{an}.append(self.additionalItems.annotation)" for s_ in p.stmts
+                    if isinstance(s_, ast.AST))
+        if t == "[self.items.annotation]":
+            return "items"
+        if t == "['Any']":
+            return "Any"
+        if t in (f"remove_duplicates({an})", an):
+            return "all members + additional" if added else "all members"
+        return "other:" + t[:60]
+    table, opaque = decision_table(via, ["ISEL", "ADDTRUE", "ADDEL", "ANY"], rec_i, lab_i)
+    good = True
+    bad = {}
+    for (isel, addtrue, addel, any_), labels in table.items():
+        if addtrue and addel:
+            continue  # True is not an Element
+        if isel:
+            want_l = {"items"}
+        elif addtrue or any_:
+            want_l = {"Any"}
+        else:
+            want_l = {"all members + additional"} if addel else {"all members"}
+        if labels != want_l:
+            good = False
+            bad[str((isel, addtrue, addel, any_))] = sorted(labels)
+    res.judge(True if good else (None if opaque or any("other:" in x for v_ in bad.values() for x in v_) else False), ia,
+              "items -> [its annotation]; tuple items -> every member + additionalItems (True -> Any)",
+              detail={"mismatches": bad, "opaque": sorted(opaque)},
               reason="every element that can validate an item contributes to the list's annotation")
 
 
